@@ -17,6 +17,7 @@ import DsdVerif.DriverKernel
 import DsdVerif.DriverIdent
 import DsdVerif.DriverIdent2
 import DsdVerif.DriverSingleton
+import DsdVerif.DriverUnits
 import DsdVerif.DriverLegacy
 import DsdVerif.Model.Dlc
 
@@ -633,7 +634,7 @@ def stepD (d : DState) (line : String) : DState × String :=
     | none => (d, "bad-op")
   | _ =>
     match (((DriverKernel.stepKernel line).orElse (fun _ => DriverIdent.stepIdent line)).orElse (fun _ => DriverIdent2.stepIdent2 line)).orElse
-        (fun _ => DriverSingleton.stepSingleton line) with
+        (fun _ => (DriverSingleton.stepSingleton line).orElse (fun _ => DriverUnits.stepUnits line)) with
     | some out => (d, out)
     | none =>
       match DriverLegacy.stepLegacy d.lg line with
